@@ -259,6 +259,12 @@ func (env *Env) evalSel(e *ESel) TV {
 		efail("selector .%s on non-struct type %s", e.F, x.T)
 	}
 	obj, index, _ := types.LookupFieldOrMethod(bt, true, ex.prog.Pkg.Types, e.F)
+	if obj == nil {
+		// unexported field of a type from another package (e.g. atomic.Value.v)
+		if n, ok := bt.(*types.Named); ok && n.Obj().Pkg() != nil {
+			obj, index, _ = types.LookupFieldOrMethod(bt, true, n.Obj().Pkg(), e.F)
+		}
+	}
 	fld, okf := obj.(*types.Var)
 	if !okf || !fld.IsField() {
 		efail("no field %s in %s", e.F, bt)
